@@ -332,6 +332,7 @@ pub fn minimise(args: &Args, full: &Spec, differing: usize) -> Minimised {
         Box::new(|p| p.pid = crate::sim_entropy::REF_PID),
         Box::new(|p| p.rss_kib = crate::sim_entropy::REF_RSS_KIB),
         Box::new(|p| p.repeat = 0),
+        Box::new(|p| p.prior_edit = 0),
         Box::new(|p| p.stall.clear()),
         Box::new(|p| p.linger.clear()),
     ];
